@@ -3,6 +3,9 @@
 // store) are driven one command line at a time with sequences from a grammar while the harness
 // adds and removes messages in the same mailbox directly through the store.  The oracle is the
 // reference model M-pop3 over observed replies plus the store contents after the session ended.
+// Stream "interfere" (interfere.go) drives the histories in which another party empties the
+// logged-in mailbox (purge, or every message removed) and it is delivered to again before the
+// session ends.
 package c13
 
 import (
@@ -32,13 +35,21 @@ func init() {
 			"(snapshot taken by the harness immediately before the login command; marks tracked from observed replies) for every reply in TRANSACTION " +
 			"state, one reply per command, and the store after the session = live contents minus exactly the marked ids after QUIT in TRANSACTION, " +
 			"unchanged otherwise. A session is non-trivial when it logged in and >=1 model comparison was made; distinct by back end, mailbox size, " +
-			"ending and the set of (command kind, argument class, outcome) triples.",
+			"ending and the set of (command kind, argument class, outcome) triples. " +
+			"Stream 'interfere' (added after seeded change C13-7): 1-6 messages, login, DELE of none/one/some/all, then one or two rounds of outside " +
+			"interference between two commands - whole mailbox purged, every message removed one by one, all but one, exactly the marked, all but " +
+			"the marked, nothing; through the store or the StoreManager - each followed by 0, 1 or 2-4 new deliveries and 0-4 further commands (judged by " +
+			"M-pop3 against the login snapshot), ending by QUIT, drop or idle timeout, both back ends. Oracle for both streams: the store after the session, " +
+			"with snapshot members identified by the delivery they stem from (not by id alone): after QUIT exactly the marked snapshot members that still " +
+			"existed are gone, after every other ending nothing is, every message delivered after the login is still there (in 'interfere' every " +
+			"remaining message also reads back the octets that were delivered).",
 		Assumptions: []string{
 			"sessions are served through VerifServeConn (the real startSession) on an in-memory net.Conn",
 			"the mailbox of a session is the single argument of the most recent acknowledged 'USER name' (or the first argument of 'APOP name digest'); logins through other shapes that are acknowledged are only checked for reply shape and for an unchanged store when nothing was marked",
 			"arguments that are not a plain decimal number alone (sign, leading zero, extra arguments, doubled or trailing spaces) may be refused or be read as their first number; either is accepted",
 			"RETR/TOP content is only required to be message n (unique marker line present), dot-terminated; RETR/TOP of a message marked deleted, or removed from the store by another party during the session, is not judged",
 			"a number followed by the word 'messages' in the first line of a login/LIST/UIDL reply is taken to be a message count",
+			"all deliveries and outside removals are made by the harness while the session is blocked reading its next command, so the harness knows which delivery every stored message stems from; a message found after the session under the id the store returned for a delivery is taken to be that delivery (stream 'interfere' also compares its source)",
 		},
 		MinObs: func(tier string) map[string]int64 {
 			return map[string]int64{
@@ -54,6 +65,16 @@ func init() {
 				"kind:long-1m":                  3, "kind:empty": 20, "kind:unknown": 20,
 				"arg:2^31": 5, "arg:2^64": 5, "arg:2^32+1": 5, "arg:zero": 20, "arg:negative": 20, "arg:over": 20, "arg:nonnumeric": 20,
 				"arg:extra": 10, "arg:double-space": 10, "arg:marked": 30,
+				// stream "interfere"
+				"ix_sessions:mem": 300, "ix_sessions:file": 300, "ix_shape:purge": 100, "ix_shape:remove-all": 100,
+				"ix_shape:remove-marked": 30, "ix_shape:remove-all-but-marked": 30, "ix_shape:remove-all-but-one": 30,
+				"ix_mailbox_emptied_behind_session": 300,
+				"ix_deliveries_after_emptying:0":    50, "ix_deliveries_after_emptying:1": 100, "ix_deliveries_after_emptying:several": 100,
+				"ix_marks_emptied_redelivered_then_quit:mem": 50, "ix_marks_emptied_redelivered_then_quit:file": 50,
+				"ix_marks_emptied_redelivered_then_drop:mem": 15, "ix_marks_emptied_redelivered_then_drop:file": 15,
+				"ix_marks_emptied_redelivered_then_idle-timeout:mem": 15, "ix_marks_emptied_redelivered_then_idle-timeout:file": 15,
+				"ix_later_deliveries_verified_present": 500, "ix_marked_members_removed_by_quit": 50,
+				"later_deliveries_found_after_session": 1000, "marked_messages_removed_by_quit": 100,
 			}
 		},
 		// Generous: file-store sessions stall for minutes when other runs saturate the disk.
@@ -71,6 +92,9 @@ func run(c *fw.Ctx) {
 	c.Cases("session", c.N(6000, 60000), func(i int, r *fw.Rand) {
 		runSession(c, i, r)
 	})
+	c.Cases("interfere", c.N(1600, 16000), func(i int, r *fw.Rand) {
+		runInterfere(c, i, r)
+	})
 }
 
 // snapMsg is one message of the snapshot S taken by the harness before the login command.
@@ -78,6 +102,7 @@ type snapMsg struct {
 	id     string
 	size   int64
 	marker string // unique line contained in the source ("" if the message is too small to carry one)
+	serial int    // harness serial of the delivery this message stems from (identity independent of the store id)
 }
 
 type psess struct {
@@ -103,6 +128,18 @@ type psess struct {
 	extAdd    bool            // harness added to box since login
 	extRem    bool            // harness removed from box since login
 	uniq      int
+
+	// Identity of messages independent of the ids the store hands out (added after seeded change
+	// C13-7, see interfere.go): every delivery of the harness has a serial; serialOf maps
+	// mailbox+"\x00"+id to the serial of the latest delivery that was given this id, src keeps
+	// what was delivered.  The store comparison after the session identifies "the messages of the
+	// login snapshot" by serial, so a store that hands a later delivery the id of a snapshot
+	// member cannot make the harness expect that delivery to go away with the marked one.
+	serialOf    map[string]int
+	src         map[int][]byte
+	loginSerial int  // s.uniq when the login was acknowledged: larger serials were delivered after login
+	content     bool // compare the full sources after the session (stream "interfere")
+	ix          *ixInfo
 
 	events   map[string]bool
 	compared int
@@ -174,12 +211,18 @@ func (s *psess) genSource() (src []byte, marker string) {
 
 func (s *psess) add(box string) {
 	src, _ := s.genSource()
+	s.deliver(box, src)
+}
+
+func (s *psess) deliver(box string, src []byte) {
 	id, err := s.env.Store.AddMessage(sut.NewDelivery(box, &mail.Address{Address: "a@hdr.test"},
 		[]*mail.Address{{Address: box + "@inbucket.test"}}, "s"+strconv.Itoa(s.uniq), time.Now(), src))
 	if err != nil {
 		panic(fmt.Sprintf("harness: AddMessage(%s): %v", box, err))
 	}
 	s.live[box] = append(s.live[box], id)
+	s.serialOf[box+"\x00"+id] = s.uniq
+	s.src[s.uniq] = src
 }
 
 func runSession(c *fw.Ctx, idx int, r *fw.Rand) {
@@ -196,7 +239,7 @@ func runSession(c *fw.Ctx, idx int, r *fw.Rand) {
 		panic(err)
 	}
 	s := &psess{c: c, r: r, idx: idx, backend: backend, env: env, state: "AUTH", live: map[string][]string{},
-		removedBy: map[string]bool{}, events: map[string]bool{}}
+		removedBy: map[string]bool{}, events: map[string]bool{}, serialOf: map[string]int{}, src: map[int][]byte{}}
 	nmain := r.Weighted([]int{1, 2, 3, 3, 3, 2, 2, 1, 2})
 	// Add more than wanted and remove the surplus again, so that store ids differ from positions.
 	surplus := r.Intn(3)
@@ -242,16 +285,9 @@ func runSession(c *fw.Ctx, idx int, r *fw.Rand) {
 		if n > 2 && r.Chance(1, 40) {
 			// The server's idle timeout expires (injected logically): the session must end and,
 			// whatever was marked, nothing may be removed.
-			s.ps.Q.FireReadTimeout()
-			if _, ok := s.ps.Q.WaitIdle(s.ps.Watchdog); !ok {
-				c.Hang("pop3-session-idle", "POP3 session neither idle nor closed after its read deadline expired", "")
-				s.failed = true
+			if !s.idleTimeout() {
 				return
 			}
-			s.ps.Q.Take()
-			s.over = true
-			s.ending = "idle-timeout-" + strings.ToLower(s.state)
-			c.Count("end:idle-timeout", 1)
 			break
 		}
 		cm := s.next()
@@ -276,6 +312,21 @@ func runSession(c *fw.Ctx, idx int, r *fw.Rand) {
 		c.NonTrivial(fmt.Sprintf("%s|%d|%s|%s", backend, nmain, s.ending, strings.Join(ev, ",")))
 	}
 	c.Sample(map[string]any{"backend": backend, "messages": nmain, "ending": s.ending, "trace_head": head(s.ps.Trace, 16)})
+}
+
+// idleTimeout lets the server's read deadline expire (injected logically) and waits for the session to end.
+func (s *psess) idleTimeout() bool {
+	s.ps.Q.FireReadTimeout()
+	if _, ok := s.ps.Q.WaitIdle(s.ps.Watchdog); !ok {
+		s.c.Hang("pop3-session-idle", "POP3 session neither idle nor closed after its read deadline expired", "")
+		s.failed = true
+		return false
+	}
+	s.ps.Q.Take()
+	s.over = true
+	s.ending = "idle-timeout-" + strings.ToLower(s.state)
+	s.c.Count("end:idle-timeout", 1)
+	return true
 }
 
 func head(t []sut.Exchange, n int) []sut.Exchange {
@@ -369,7 +420,7 @@ func (s *psess) takeSnapshot(box string) []snapMsg {
 	var out []snapMsg
 	for _, m := range ms {
 		sn := sut.SnapMsg(m, true)
-		out = append(out, snapMsg{id: sn.ID, size: sn.Size, marker: markerRE.FindString(sn.Source)})
+		out = append(out, snapMsg{id: sn.ID, size: sn.Size, marker: markerRE.FindString(sn.Source), serial: s.serialOf[box+"\x00"+sn.ID]})
 	}
 	return out
 }
@@ -377,6 +428,7 @@ func (s *psess) takeSnapshot(box string) []snapMsg {
 // finish ends the session if necessary and compares the store with what the ending allows.
 func (s *psess) finish() {
 	commit := s.ending == "quit-transaction"
+	markedStillLive := 0
 	if !s.over {
 		s.over = true
 		s.ending = "close-" + strings.ToLower(s.state)
@@ -421,14 +473,19 @@ func (s *psess) finish() {
 	if s.state == "TRANS" && commit {
 		var keep []string
 		for _, id := range s.live[s.box] {
+			// "The messages marked at the time of QUIT" are messages of the login snapshot; they
+			// are identified by the delivery they stem from, not by the id alone (see serialOf).
+			ser := s.serialOf[s.box+"\x00"+id]
 			del := false
 			for i, m := range s.S {
-				if m.id == id && s.marked[i] {
+				if m.serial == ser && s.marked[i] {
 					del = true
 				}
 			}
 			if !del {
 				keep = append(keep, id)
+			} else {
+				markedStillLive++
 			}
 		}
 		expect[s.box] = keep
@@ -437,7 +494,7 @@ func (s *psess) finish() {
 	if s.box != "" {
 		extra = append(extra, s.box)
 	}
-	snap, err := sut.Snapshot(s.env.Store, extra, false)
+	snap, err := sut.Snapshot(s.env.Store, extra, s.content)
 	if err != nil {
 		s.fail("store-unreadable", err.Error())
 		return
@@ -474,13 +531,73 @@ func (s *psess) finish() {
 			key = "quit-kept-marked-message"
 		case commit && len(got) < len(want):
 			key = "quit-removed-unmarked-message"
+			if s.laterMissing(n, got) {
+				key = "quit-removed-later-delivery"
+			}
 		case commit:
 			key = "quit-removed-wrong-message"
 		}
 		s.fail(key, fmt.Sprintf("after ending %q mailbox %q holds ids %v, expected %v (live before the ending %v)", s.ending, n, got, want, s.live[n]))
 		return
 	}
+	if s.content {
+		// Everything in the store after the session still has the content that was delivered.
+		for _, n := range sorted {
+			for _, m := range snap[n] {
+				want, known := s.src[s.serialOf[n+"\x00"+m.ID]]
+				if m.SrcErr != "" || !known || m.Source != string(want) {
+					s.fail("content-changed-by-session", fmt.Sprintf("after ending %q message %s of mailbox %q reads %d octets (error %q), %d octets were delivered under that id: %s... vs %s...",
+						s.ending, m.ID, n, len(m.Source), m.SrcErr, len(want), fw.Q(cut(m.Source, 120)), fw.Q(cut(string(want), 120))))
+					return
+				}
+			}
+		}
+	}
 	s.c.Count("store_compared_after_session", 1)
+	if s.state == "TRANS" {
+		later := 0
+		for _, id := range s.live[s.box] {
+			if s.serialOf[s.box+"\x00"+id] > s.loginSerial {
+				later++
+			}
+		}
+		s.c.Count("later_deliveries_found_after_session", int64(later))
+		if commit {
+			s.c.Count("marked_messages_removed_by_quit", int64(markedStillLive))
+		}
+		if s.ix != nil {
+			s.ix.later, s.ix.removedByQuit = later, markedStillLive
+		}
+	}
+}
+
+// laterMissing reports whether a message delivered to mailbox n after the login is absent from got.
+func (s *psess) laterMissing(n string, got []string) bool {
+	if n != s.box {
+		return false
+	}
+	for _, id := range s.live[n] {
+		if s.serialOf[n+"\x00"+id] <= s.loginSerial {
+			continue
+		}
+		found := false
+		for _, g := range got {
+			if g == id {
+				found = true
+			}
+		}
+		if !found {
+			return true
+		}
+	}
+	return false
+}
+
+func cut(s string, n int) string {
+	if len(s) > n {
+		return s[:n]
+	}
+	return s
 }
 
 func subseq(a, b []string) bool {
@@ -897,6 +1014,7 @@ func (s *psess) play(cm cmd) {
 					return
 				}
 				s.state, s.box, s.S = "TRANS", candBox, cand
+				s.loginSerial = s.uniq
 				s.marked = make([]bool, len(cand))
 				if verb == "PASS" {
 					c.Count("logins_user_pass", 1)
